@@ -1,7 +1,8 @@
 from check import Prop
+from props.part_c20b import C20bPart
 
 
-class C20(Prop):
+class C20(C20bPart, Prop):
     pid = "C20"
     check_mod = "C20"
     drivers = [dict(pkg="internal/core", test="TestVerifPathSM", timeout=900)]
@@ -15,6 +16,13 @@ class C20(Prop):
         text='Coq theorems (all histories, all hook configurations): for runOnAvailable/runOnUnavailable (ready/not-ready), runOnOnline/runOnOffline and runOnDemand/runOnUnDemand the hook calls strictly alternate open/close starting with open, the log-visible start/stop(/launch) lines alternate likewise, and after Close no pair is open; alwaysAvailable paths included (available pair opened by initialize(), online pair following the publishers / the static source, both closed by Close). Tied to path.go and internal/hooks/*.go by the shared path driver observing the hook log lines.',
         note='Partial: per-reader (runOnRead) and per-connection (runOnConnect) hooks live in the protocol servers and are not covered by this model; the child processes themselves are started asynchronously by externalcmd and are not observed.',
         technique="Coq proof: state invariant (finite part checked per operation by case enumeration, list part compositionally) lifted to all histories by induction (Lib/Trace.v); correspondence by vm_compute over driver cases")
+
+    trusted_base = trusted_base + list(C20bPart.trusted_base_b)
+    assumptions = assumptions + list(C20bPart.assumptions_b)
+    manifest = dict(manifest)
+    manifest["text"] = manifest["text"] + " " + C20bPart.manifest_b.get("text", "")
+    manifest["note"] = C20bPart.manifest_b.get("note", "") + " " + manifest["note"].replace(
+        "Partial: per-reader (runOnRead) and per-connection (runOnConnect) hooks live in the protocol servers and are not covered by th", "Partial: th")
 
 
 PROP = C20()
